@@ -251,9 +251,15 @@ Proof.
   destruct (memb x och && isd x && negb (memb x l)); [apply in_or_app; left; exact Hd | exact Hd].
 Qed.
 
+Lemma fold_prc_pginv c p es : forall w, wf w -> pginv w -> pginv (fold_left (fun w e => parent_remove_child c w p e) es w).
+Proof.
+  induction es as [|e r IH]; intros w H P; simpl; [exact P|].
+  apply IH; [eapply wf_shrink; [apply parent_remove_child_shrink | exact H] | apply parent_remove_child_pginv; assumption].
+Qed.
+
 Lemma step_pginv c w a : wf w -> pginv w -> pginv (fst (step c w a)).
 Proof.
-  intros H P. destruct a as [p|p|o|o ds|g ds|e b|e|e| |k|e]; unfold step.
+  intros H P. destruct a as [p|p|o|o ds|g ds|e b|e|e| |k|e|es]; unfold step.
   - destruct (attachedb w p && kind_eqb (ekind (E w p)) KGroup); [|exact P]. cbn [fst].
     eapply pginv_grow; [|exact P]. intros y. simpl.
     destruct (Nat.eqb y (n w)); [left; reflexivity|]. right.
@@ -316,6 +322,8 @@ Proof.
       (eapply pginv_file; [|exact P]; simpl; apply (proj1 (E_fold_del_flat _ w))).
   - destruct (Nat.ltb e (n w)); [|exact P]. destruct (memb e (reg w)); [|exact P].
     destruct (memb e (held w)); [exact P|]. cbn [fst]. eapply pginv_file; [|exact P]. reflexivity.
+  - destruct es as [|e0 r]; [exact P|]. destruct (forallb _ (e0 :: r)); [|exact P]. cbn [fst].
+    apply (fold_prc_pginv c (par (E w e0)) (e0 :: r) w H P).
 Qed.
 
 Theorem run_inv c : forall h w, wf w -> pginv w -> wf (run c w h) /\ pginv (run c w h).
